@@ -330,6 +330,20 @@ def stable(x: int) -> int:
     return x * 2 + 1
 
 
+registry = {"events": []}
+history = [{"calls": []}, {"calls": []}]
+
+
+def log_event(name: str) -> int:
+    registry["events"].append(name)
+    return 7
+
+
+def note(x: int) -> bool:
+    history[x % 2]["calls"].append(x)
+    return True
+
+
 class Once:
     used = False
 
@@ -399,13 +413,21 @@ def run_stateful(spec: dict) -> dict:
             operators = [*mo.standard_operators, *mo.experimental_operators]
             uid = 0
             for _round in range(spec["rounds"]):
+                # every fourth round is a FRESH round: a single test, the module is re-executed (fresh module state)
+                # before the capture pass and again before the re-check, so the rendered text of every kept assertion
+                # is evaluated against fresh module state
+                fresh = _round % 4 == 3
                 tests = []
-                for _t in range(rng.choice([1, 2, 3])):
+                for _t in range(1 if fresh else rng.choice([1, 2, 3])):
                     t = tc.TestCase()
                     n = 0
                     for _s in range(rng.choice([1, 2, 3])):
                         uid += 1
                         kind = rng.choice(["register", "register", "take", "first", "once", "stable", "stable"])
+                        if fresh and rng.random() < 0.6:
+                            # nested SUT-retained state is only touched in fresh rounds (one test, fresh module state):
+                            # in a multi-test round an assertion on it would depend on the order of the other tests
+                            kind = rng.choice(["log", "log", "note"])
                         if kind == "register":
                             t.add_statement(stmt(f"str_{n} = 'name{uid}'", f"str_{n}", str))
                             t.add_statement(stmt(f"int_{n} = {alias}.register(str_{n})", f"int_{n}", int))
@@ -416,6 +438,10 @@ def run_stateful(spec: dict) -> dict:
                         elif kind == "once":
                             t.add_statement(stmt(f"once_{n} = {alias}.Once()", f"once_{n}"))
                             t.add_statement(stmt(f"str_{n} = once_{n}.fire()", f"str_{n}", str))
+                        elif kind == "log":
+                            t.add_statement(stmt(f"int_{n} = {alias}.log_event('e{uid % 3}')", f"int_{n}", int))
+                        elif kind == "note":
+                            t.add_statement(stmt(f"bool_{n} = {alias}.note({rng.randrange(4)})", f"bool_{n}", bool))
                         else:
                             t.add_statement(stmt(f"int_{n} = {alias}.stable({rng.randrange(9)})", f"int_{n}", int))
                         n += 1
@@ -425,6 +451,10 @@ def run_stateful(spec: dict) -> dict:
                     suite.add_test_case_chromosome(tcc.TestCaseChromosome(t))
                 # reset the budget/once state so that the capture pass succeeds once more
                 mod = sys.modules[module_name]
+                if fresh:
+                    with sp.instrumentation_tracer:
+                        importlib.reload(mod)
+                    stats["stateful_fresh_rounds"] = stats.get("stateful_fresh_rounds", 0) + 1
                 mod._budget["left"] = 1
                 mod.Once.used = False
                 # both wirings: one shared executor / a dedicated filtering executor; plain and mutation-analysis generator.
@@ -447,6 +477,14 @@ def run_stateful(spec: dict) -> dict:
                     generator = ag.AssertionGenerator(executor, rng.choice([1, 1, 2]))
                 suite.accept(generator)
                 for t in tests:
+                    if fresh:
+                        with sp.instrumentation_tracer:
+                            importlib.reload(mod)
+                        mod._budget["left"] = 1
+                        mod.Once.used = False
+                        wiring_note = wiring + "+fresh-module-state"
+                    else:
+                        wiring_note = wiring
                     checker = make_holds_checker()
                     with executor.temporarily_add_remote_observer(checker):
                         res = executor.execute(t)
@@ -458,9 +496,9 @@ def run_stateful(spec: dict) -> dict:
                         code = [cst.Module(body=[s.node]).code.strip() for s in t.statements()]
                         out["fails"].append({
                             "signature": "holding:kept-assertion-fails-on-original",
-                            "what": f"stateful subject ({wiring}): {len(checker.violations)} kept assertion(s) do not hold when the test is "
+                            "what": f"stateful subject ({wiring_note}): {len(checker.violations)} kept assertion(s) do not hold when the test is "
                                     f"re-executed on the unmutated module: {checker.violations[:2]}",
-                            "replay": {"spec": spec, "wiring": wiring, "test": code, "violated": checker.violations[:5]}})
+                            "replay": {"spec": spec, "wiring": wiring_note, "test": code, "violated": checker.violations[:5]}})
         out["stats"] = stats
     except BaseException as e:  # noqa: BLE001
         out["error"] = f"{type(e).__name__}: {e}\n" + traceback.format_exc()[-2500:]
